@@ -27,7 +27,7 @@ def run(tier):
     tr = os.path.join(WORK, "trace_C10_load.ndjson")
     n = c11.record(tr, cases, wd, {"doc"})
     wd.close()
-    c11.judge(res, tr, n, {"positions", "sarif-regions", "text", "validate-value"}, lambda name, line: "positions:%s:%s" % (name, line["fmt"]))
+    c11.judge(res, tr, n, {"positions", "sarif-regions", "payload-positions", "text", "validate-value"}, lambda name, line: "positions:%s:%s" % (name, line["fmt"]))
     res.add("evaluations", n)
     os.remove(tr)
     res.cov["rule"] = ("PathOK over the single-clause space (every query result sits at its path; unresolved results name an "
